@@ -155,6 +155,52 @@ Theorem C08_shared_root_walk_stops_early :
   spec_listing (run [] 1 ex_gpl ex_shared) 4 = [(1%N, 0); (102%N, 1); (103%N, 2); (102%N, 3)].
 Proof. exact shared_root_walk_stops_early. Qed.
 
+(* ------------------------------------------------------------------------------------------------------------
+   ANY WORK VALUES.  The walk theorems above are stated under [Valid] (positive-work histories).  Their proofs only use
+   Structural s := exists tip, Inv s tip (BHS.MerkleProofs; LONGEST_CHAIN rows = chain s tip), which
+   ChainFields.reachable_inv proves for EVERY history, zero-work headers included (C08_reachable_structural).
+   C08_listing_meaning, C08_batch_zero, C08_walk_with_appends, C08_extend_tip are stated under Inv and
+   C08_no_stale_no_orphan, C08_key_unknown, C08_key_not_longest, C08_page_http_cap for ANY store: they hold for any work
+   values as they stand.  Only C08_walk_tracks_chain genuinely needs [best] / Inv2 (that the listed chain is the
+   specification's best path) and stays positive-work.
+   ------------------------------------------------------------------------------------------------------------ *)
+Theorem C08_reachable_structural : forall f gid gpl hs, gid <> 0%N -> nonzero_ids hs -> Structural (run f gid gpl hs).
+Proof. exact reachable_structural. Qed.
+
+Theorem C08_walk_complete_any_work : forall hlt s batch fuel, Structural s -> roots_unique s -> (1 <= batch)%nat ->
+  exists tip, Inv s tip /\
+    ((length (asc_chain s tip) <= fuel * batch)%nat ->
+     contents (walk_pages fuel hlt s batch) = spec_listing s tip /\
+     Forall (fun p => is_ok p = true) (walk_pages fuel hlt s batch)).
+Proof. exact structural_walk_complete. Qed.
+
+Theorem C08_walk_pages_bounded_any_work : forall hlt s batch fuel, Structural s -> roots_unique s -> (1 <= batch)%nat ->
+  exists tip, Inv s tip /\
+    ((length (asc_chain s tip) <= fuel * batch)%nat ->
+     Forall (fun p => (length (content_of p) <= batch)%nat) (walk_pages fuel hlt s batch) /\
+     Forall (fun p => length (content_of p) = batch) (removelast (walk_pages fuel hlt s batch))).
+Proof. exact structural_walk_pages_bounded. Qed.
+
+(* n/batch + 1 requests suffice and the last key is then empty *)
+Theorem C08_walk_terminates_any_work : forall hlt s batch, Structural s -> roots_unique s -> (1 <= batch)%nat ->
+  exists tip, Inv s tip /\
+    let n := length (asc_chain s tip) in
+    (n <= S (n / batch) * batch)%nat /\
+    (length (walk_pages (S (n / batch)) hlt s batch) <= S (n / batch))%nat /\
+    key_of (last (walk_pages (S (n / batch)) hlt s batch) PErrNoTip) = None.
+Proof. exact structural_walk_terminates. Qed.
+
+Theorem C08_page_is_spec_any_work : forall hlt s batch key, Structural s -> roots_unique s ->
+  exists tip, Inv s tip /\ page hlt s batch key = spec_page s tip batch key.
+Proof. exact structural_page_is_spec. Qed.
+
+(* satisfiable on a zero-work history (the zero-work child 3 of the tip is the tip; 4 is a stale sibling) *)
+Theorem C08_example_zero_work :
+  Structural (run [] 1 ex_gpl ex_zero) /\ roots_unique (run [] 1 ex_gpl ex_zero) /\
+  map content_of (walk_pages 5 lt_id (run [] 1 ex_gpl ex_zero) 2) = [[(1%N, 0); (102%N, 1)]; [(103%N, 2)]] /\
+  page lt_id (run [] 1 ex_gpl ex_zero) 2 (Some 104%N) = PErrConflict.
+Proof. exact ex_zero_walk. Qed.
+
 Print Assumptions C08_listing_meaning.
 Print Assumptions C08_walk_complete.
 Print Assumptions C08_walk_pages_bounded.
@@ -173,3 +219,9 @@ Print Assumptions C08_example_valid.
 Print Assumptions C08_example_walks.
 Print Assumptions C08_example_conflict_after_reorg.
 Print Assumptions C08_shared_root_walk_stops_early.
+Print Assumptions C08_reachable_structural.
+Print Assumptions C08_walk_complete_any_work.
+Print Assumptions C08_walk_pages_bounded_any_work.
+Print Assumptions C08_walk_terminates_any_work.
+Print Assumptions C08_page_is_spec_any_work.
+Print Assumptions C08_example_zero_work.
